@@ -2,8 +2,8 @@ SPECIFICATION Spec
 CONSTANTS NR = 7
           NC = 7
           W = 3
-          NMat = 400
-          NY = 300
+          NMat = 200
+          NY = 150
           Variant = "code"
 INVARIANTS TypeOK WOrthogonal VOrthogonal SelectionOK SkipSound ThreeTermWhenClassical YOrthogonal RankBound TerminationTest ResultOK
 CHECK_DEADLOCK TRUE
